@@ -102,7 +102,7 @@ def gen_client_plan(rng, prof=None):
                      [0, 0, 1, 3]))]},
         'probe': rng.choice(p.get('probes', ['right', 'right', 'right',
                                              'wrong', 'never', 'refuse',
-                                             'close'])),
+                                             'close', 'right_drop'])),
         'ping': {'auto': True,
                  'data': [rng.choice(['', '', 'x', 'probe', '{"a":1}', '12',
                                       'é', '"q"', '[1, 2]', 'null', '1e5',
